@@ -36,7 +36,7 @@ type Op struct {
 	Key     string `json:"key,omitempty"`
 	Group   string `json:"group,omitempty"`
 	Generic bool   `json:"generic,omitempty"` // through godi.Resolve*/ResolveKeyed/ResolveGroup
-	CtxKind int    `json:"ctx,omitempty"`     // OpCreate: 0 nil ctx, 1 Background, 2 cancellable, 3 with value
+	CtxKind int    `json:"ctx,omitempty"`     // OpCreate: 0 nil ctx, 1 Background, 2 cancellable, 3 cancellable with value, 4 derived from the parent scope context (value), 5 derived from it and cancellable
 }
 
 func (o Op) String() string {
@@ -259,6 +259,18 @@ func (r *Run) Do(o Op) OpResult {
 			case 3:
 				key = ctxKeyT{opIdx}
 				ctx, cancel = context.WithCancel(context.WithValue(context.Background(), key, opIdx))
+			case 4, 5:
+				// contexts derived from the PARENT SCOPE's own context (a sub-operation of a
+				// request): 4 = value only (ends with the parent), 5 = cancellable by the caller
+				base := context.Background()
+				if ps, ok := tgt.(godi.Scope); ok {
+					base = ps.Context()
+				}
+				key = ctxKeyT{opIdx}
+				ctx = context.WithValue(base, key, opIdx)
+				if o.CtxKind == 5 {
+					ctx, cancel = context.WithCancel(ctx)
+				}
 			}
 			var s godi.Scope
 			s, err = tgt.CreateScope(ctx)
